@@ -1015,3 +1015,196 @@ Proof.
     rewrite Ho. subst m3. unfold w. cbn [w_noad mk_wstate].
     destruct (h_cd (m_hdr q) || negb (h_ad (m_hdr q)) && negb (f_do (set_edns0 c q))); destruct d; reflexivity.
 Qed.
+
+(* ------------------------------------------------------------------ *)
+(* Name compression: the computed Msg.Len() with compression never
+   exceeds the uncompressed one ("compression only shortens" is now a
+   lemma about the model of compressionLenSearch, not a premise).      *)
+
+Lemma chain_wlen_cons id len r : chain_wlen ((id, len) :: r) = 1 + len + chain_wlen r.
+Proof. unfold chain_wlen, sumN. cbn [fold_right snd]. lia. Qed.
+Lemma chain_wlen_pos ch : 1 <= chain_wlen ch.
+Proof. unfold chain_wlen. lia. Qed.
+
+Lemma comp_search_le cm msgoff o ch o' cm' :
+  comp_search cm msgoff o ch = (Some o', cm') -> o' + 2 <= o + chain_wlen ch.
+Proof.
+  revert cm o. induction ch as [|[id len] r IH]; intros cm o H; cbn [comp_search] in H; [discriminate|].
+  rewrite chain_wlen_cons. pose proof (chain_wlen_pos r).
+  destruct (existsb (N.eqb id) cm).
+  - inversion H; subst. lia.
+  - apply IH in H. lia.
+Qed.
+
+Lemma name_clen_le nt cm off cp id : fst (name_clen nt cm off cp id) <= name_wlen nt id.
+Proof.
+  unfold name_clen, name_wlen. destruct (name_chain nt id) as [|x r] eqn:E.
+  - cbn. unfold chain_wlen. cbn. lia.
+  - destruct (cp || (off <? max_compression_offset)); [|cbn; lia].
+    destruct (comp_search cm off 0 (x :: r)) as [[o|] cm'] eqn:S; [|cbn; lia].
+    destruct cp; [|cbn; lia]. cbn [fst]. apply comp_search_le in S. lia.
+Qed.
+
+Lemma segs_clen_le nt sgs : forall cm off l, fst (segs_clen nt cm off l sgs) <= l + sumN (seg_ulen nt) sgs.
+Proof.
+  induction sgs as [|sg r IH]; intros cm off l; cbn [segs_clen sumN fold_right]; [cbn; lia|].
+  destruct sg as [n|cp id].
+  - specialize (IH cm off (l + n)). cbn [seg_ulen]. unfold sumN in *. lia.
+  - pose proof (name_clen_le nt cm (off + l) cp id) as Hn.
+    destruct (name_clen nt cm (off + l) cp id) as [k cm'] eqn:E. cbn [fst] in Hn.
+    specialize (IH cm' off (l + k)). cbn [seg_ulen]. unfold sumN in *. lia.
+Qed.
+
+Lemma rr_clen_le nt cm off r : rr_wf nt r = true -> fst (rr_clen nt cm off r) <= r_len r.
+Proof.
+  unfold rr_wf, rr_clen. intros H. apply N.eqb_eq in H.
+  pose proof (name_clen_le nt cm off true (r_owner r)) as Hn.
+  destruct (name_clen nt cm off true (r_owner r)) as [k cm'] eqn:E. cbn [fst] in Hn.
+  pose proof (segs_clen_le nt (r_rd r) cm' off (k + 10)). lia.
+Qed.
+
+Lemma quest_clen_le nt cm off q : quest_wf nt q = true -> fst (quest_clen nt cm off q) <= q_len q.
+Proof.
+  unfold quest_wf, quest_clen. intros H. apply N.eqb_eq in H.
+  pose proof (name_clen_le nt cm off false (q_name q)) as Hn.
+  destruct (name_clen nt cm off false (q_name q)) as [k cm'] eqn:E. cbn [fst] in *. lia.
+Qed.
+
+Lemma xrr_clen_le nt cm off x : xrr_wf nt x = true -> fst (xrr_clen nt cm off x) <= xrr_len x.
+Proof. destruct x; cbn; intros H; [apply rr_clen_le; exact H|lia|lia]. Qed.
+
+Lemma fold_clen_le {A} (f : list N -> N -> A -> N * list N) (ul : A -> N) (wf : A -> bool) l :
+  (forall cm off x, wf x = true -> fst (f cm off x) <= ul x) ->
+  forallb wf l = true ->
+  forall st, fst (fold_clen f st l) <= fst st + sumN ul l.
+Proof.
+  intros Hf. unfold fold_clen. induction l as [|x l IH]; intros Hw st; cbn [fold_left sumN fold_right]; [lia|].
+  cbn in Hw. apply andb_true_iff in Hw. destruct Hw as [Hx Hl].
+  specialize (Hf (snd st) (fst st) x Hx).
+  destruct (f (snd st) (fst st) x) as [k cm'] eqn:E. cbn [fst] in Hf.
+  specialize (IH Hl (fst st + k, cm')). cbn [fst] in IH. unfold sumN in *. lia.
+Qed.
+
+Lemma msg_clen_le_ulen_l nt m : msg_wf nt m = true -> msg_clen nt m <= msg_ulen m.
+Proof.
+  unfold msg_wf, msg_clen, msg_ulen. intros H.
+  apply andb_true_iff in H. destruct H as [H Hex]. apply andb_true_iff in H. destruct H as [H Hns].
+  apply andb_true_iff in H. destruct H as [Hq Han].
+  destruct (is_compressible m); [|lia].
+  pose proof (fold_clen_le (quest_clen nt) q_len (quest_wf nt) (m_q m) (quest_clen_le nt) Hq (header_len, [])) as H1.
+  set (s1 := fold_clen (quest_clen nt) (header_len, []) (m_q m)) in *.
+  pose proof (fold_clen_le (rr_clen nt) r_len (rr_wf nt) (m_an m) (rr_clen_le nt) Han s1) as H2.
+  set (s2 := fold_clen (rr_clen nt) s1 (m_an m)) in *.
+  pose proof (fold_clen_le (rr_clen nt) r_len (rr_wf nt) (m_ns m) (rr_clen_le nt) Hns s2) as H3.
+  set (s3 := fold_clen (rr_clen nt) s2 (m_ns m)) in *.
+  pose proof (fold_clen_le (xrr_clen nt) xrr_len (xrr_wf nt) (m_ex m) (xrr_clen_le nt) Hex s3) as H4.
+  cbn [fst] in H1. lia.
+Qed.
+
+(* well-formedness w.r.t. the name table survives the shaping *)
+Lemma forallb_filter {A} (f g : A -> bool) l : forallb f l = true -> forallb f (filter g l) = true.
+Proof.
+  induction l as [|x l IH]; cbn; [auto|]. intros H. apply andb_true_iff in H. destruct H as [H1 H2].
+  destruct (g x); cbn; rewrite ?H1; auto.
+Qed.
+
+Lemma shape_ex_wf nt c w ex : forallb (xrr_wf nt) ex = true -> forallb (xrr_wf nt) (shape_ex c w ex) = true.
+Proof.
+  intros H. unfold shape_ex.
+  destruct (split_last_opt ex) as [[[pre [b o]] suf]|] eqn:E.
+  - destruct (split_last_opt_some _ _ _ _ _ E) as [Hex _]. rewrite Hex in H.
+    rewrite forallb_app in H. apply andb_true_iff in H. destruct H as [Hp Hs]. cbn in Hs.
+    apply andb_true_iff in Hs. destruct Hs as [_ Hs].
+    destruct b; rewrite forallb_app; cbn; rewrite Hs; unfold drop_opts; rewrite (forallb_filter _ _ _ Hp); reflexivity.
+  - rewrite forallb_app, H. reflexivity.
+Qed.
+
+Lemma clear_dnssec_wf nt m : msg_wf nt m = true -> msg_wf nt (clear_dnssec m) = true.
+Proof.
+  intros H. unfold clear_dnssec.
+  set (st := mk_msg (m_hdr m) (m_q m) (filter (fun r => negb (is_dnssec r)) (m_an m))
+                    (filter (fun r => negb (is_dnssec r)) (m_ns m)) (m_ex m)).
+  assert (Hst : msg_wf nt st = true).
+  { unfold msg_wf in *. subst st. cbn [m_q m_an m_ns m_ex].
+    apply andb_true_iff in H. destruct H as [H Hex]. apply andb_true_iff in H. destruct H as [H Hns].
+    apply andb_true_iff in H. destruct H as [Hq Han].
+    rewrite Hq, (forallb_filter _ _ _ Han), (forallb_filter _ _ _ Hns), Hex. reflexivity. }
+  clearbody st. destruct (m_q m) as [|q ?]; [exact Hst|]. destruct (q_type q =? type_rrsig); [exact H|exact Hst].
+Qed.
+
+Lemma shape_pre_wf nt c w d : msg_wf nt d = true -> msg_wf nt (shape_pre c w d) = true.
+Proof.
+  intros H. unfold shape_pre.
+  assert (H1 : msg_wf nt (if w_do w then d else clear_dnssec d) = true).
+  { destruct (w_do w); [exact H|apply clear_dnssec_wf; exact H]. }
+  set (m1 := if w_do w then d else clear_dnssec d) in *.
+  assert (H2 : msg_wf nt (if w_noedns w then clear_opt m1 else shape_opt c w m1) = true).
+  { unfold msg_wf in *. 
+    apply andb_true_iff in H1. destruct H1 as [H1 Hex]. apply andb_true_iff in H1. destruct H1 as [H1 Hns].
+    apply andb_true_iff in H1. destruct H1 as [Hq Han].
+    destruct (w_noedns w); cbn [clear_opt shape_opt with_ex m_q m_an m_ns m_ex]; rewrite Hq, Han, Hns; cbn [andb].
+    - apply forallb_filter. exact Hex.
+    - apply shape_ex_wf. exact Hex. }
+  destruct (w_noad w); [|exact H2]. exact H2.
+Qed.
+
+(* the ladders with the computed length are instances of the ladders that are generic in it *)
+Definition clen_of (nt : ntab) (tr : transport) (c : cfg) (q : msg) (strict : bool) (dn : option msg) : N :=
+  match dn with
+  | Some d => msg_clen nt (shape_pre c (mk_wstate tr strict q (set_edns0 c q)) d)
+  | None => 0
+  end.
+
+Lemma serve_msg_c_instance_l nt tr c q strict dn :
+  serve_msg_c nt tr c q strict dn = serve_msg tr c q strict dn (clen_of nt tr c q strict dn).
+Proof.
+  unfold serve_msg_c, serve_msg, serve_msg_gen, edns_serve_gen, clen_of, shape_reply_c.
+  destruct (negb (length (m_q q) =? 1)%nat); [reflexivity|].
+  destruct ((edns_opcode_floor <? Z.of_N (h_opcode (m_hdr q)))%Z); [reflexivity|].
+  destruct (negb (f_ver (set_edns0 c q) =? 0)); [reflexivity|].
+  destruct dn; reflexivity.
+Qed.
+
+Lemma serve_raw_c_instance_l nt tr c h body strict dn :
+  serve_raw_c nt tr c h body strict dn
+  = serve_raw tr c h body strict dn (match body with Some q => clen_of nt tr c q strict dn | None => 0 end).
+Proof.
+  unfold serve_raw_c, serve_raw, serve_raw_gen. destruct (accept_header h); try reflexivity.
+  destruct body as [q|]; [|reflexivity]. apply (serve_msg_c_instance_l nt tr c q strict dn).
+Qed.
+
+(* FULL, no premise on the length: every UDP reply of the pipeline that measures with the model of
+   the library's compressed Len *)
+Lemma udp_size_bound_c_l nt c q strict dn r :
+  serve_msg_c nt UDP c q strict dn = Some r ->
+  quest_small q ->
+  (forall d, dn = Some d -> msg_wf nt d = true) ->
+  tc_minimal r = true
+  \/ msg_ulen r <= udp_limit (client_opt q)
+  \/ (exists d, dn = Some d /\ r = norm (shape_pre c (mk_wstate UDP strict q (set_edns0 c q)) d)
+                 /\ msg_clen nt r <= udp_limit (client_opt q)).
+Proof.
+  intros H Hq Hw. rewrite serve_msg_c_instance_l in H.
+  apply udp_size_bound_l in H; auto.
+  - destruct H as [H|[H|(d & Hd & Hr & Hc)]]; auto. right. right. exists d. split; [exact Hd|]. split; [exact Hr|].
+    unfold clen_of in Hc. rewrite Hd in Hc. rewrite Hr.
+    (* norm does not change lengths *)
+    assert (Hn : forall m, msg_clen nt (norm m) = msg_clen nt m).
+    { intros m. unfold msg_clen, norm, is_compressible, msg_ulen. cbn [with_ex m_q m_an m_ns m_ex].
+      assert (E1 : forall l st, fold_clen (xrr_clen nt) st (map norm_x l) = fold_clen (xrr_clen nt) st l).
+      { unfold fold_clen. induction l as [|x l IH]; intros st; cbn [map fold_left]; [reflexivity|].
+        destruct x; cbn [norm_x xrr_clen]; apply IH. }
+      assert (E2 : forall l, sumN xrr_len (map norm_x l) = sumN xrr_len l).
+      { induction l as [|x l IH]; cbn; [reflexivity|]. unfold sumN in IH. rewrite IH. destruct x; reflexivity. }
+      rewrite E1, E2. destruct (m_ex m) as [|x l]; [reflexivity|]. destruct x; reflexivity. }
+    rewrite Hn. exact Hc.
+  - intros d Hd. unfold clen_of. rewrite Hd. apply msg_clen_le_ulen_l, shape_pre_wf, Hw, Hd.
+Qed.
+
+(* the table-derived lengths really bound the wire: an example with two names sharing a suffix *)
+Example ex_compress :
+  let nt := [(3, 0); (7, 1); (3, 2)] in   (* 1 = "com."  2 = "example.com."  3 = "www.example.com." *)
+  let m := mk_msg (mk_hdr 1 true 0 false false true true false false false 0) [mk_quest 3 1 1 21]
+                  [mk_rr 0 3 5 1 60 40 [SName true 2]; mk_rr 1 2 1 1 60 27 [SFix 4]] [] [] in
+  msg_wf nt m = true /\ msg_ulen m = 100 /\ msg_clen nt m = 63.
+Proof. vm_compute. auto. Qed.
